@@ -695,6 +695,54 @@ func runReuse(c *core.Ctx) []core.Obligation {
 		}
 	}
 
+	// interface targets of a named or non-empty interface type (decodeMaybeEmptyInterface): the
+	// same two facts. A held pointer is followed only when it is not nil; and an interface without
+	// methods can hold whatever the input holds, whether or not it currently holds something — the
+	// "decode into it as an any" arm must not be reachable only when the interface is nil.
+	if fn := c.Lookup("json.(decoder).decodeMaybeEmptyInterface"); fn != nil {
+		key := "reuse:json.(decoder).decodeMaybeEmptyInterface:empty-interface-always-decodable"
+		var generic *ssa.Call
+		for _, ci := range callsIn(fn) {
+			call, ok := ci.(*ssa.Call)
+			if !ok {
+				continue
+			}
+			f := staticCallee(call.Common())
+			if f == nil || (f.Name() != "Parse" && f.Name() != "parse") {
+				continue
+			}
+			for _, a := range call.Call.Args {
+				if mi, isMI := a.(*ssa.MakeInterface); isMI && strings.Contains(mi.X.Type().String(), "*interface{}") || strings.Contains(a.Type().String(), "*interface{}") {
+					generic = call
+				}
+				if mi, isMI := a.(*ssa.MakeInterface); isMI && strings.HasSuffix(mi.X.Type().String(), "*any") {
+					generic = call
+				}
+			}
+		}
+		switch {
+		case generic == nil:
+			b.addP([]string{"C02"}, core.Info, key, c.FuncPos(fn), "no decode-as-any arm found")
+		default:
+			onlyWhenNil := false
+			for _, e := range dominatingEdges(generic.Block()) {
+				cond := e.ifi.Cond
+				want := 0
+				if u, isNot := cond.(*ssa.UnOp); isNot && u.Op == token.NOT {
+					cond, want = u.X, 1
+				}
+				if cc, isCall := cond.(*ssa.Call); isCall && calleeName(cc.Common()) == "(reflect.Value).IsNil" && e.succ == want {
+					onlyWhenNil = true
+				}
+			}
+			if onlyWhenNil {
+				b.addP([]string{"C02"}, core.Violation, key, c.InstrPos(generic), "decodeMaybeEmptyInterface decodes into an interface without methods as an any only when the interface is nil: a target of a named empty interface type that already holds a value (type Any interface{}; var x Any = 5) fails with an UnmarshalTypeError where encoding/json replaces the value")
+			} else {
+				b.addP([]string{"C02"}, core.Discharged, key, c.InstrPos(generic), "an interface without methods is decoded as an any whatever it holds")
+			}
+		}
+	}
+
 	return b.out
 }
 
